@@ -1,11 +1,97 @@
-"""Per-property bounds / not-covered statements copied into the evidence files."""
+"""Per-property bounds / not-covered statements copied into the evidence files (and the manifest)."""
+
+COMMON_NOT = ["inputs longer than N", "grammar shapes outside the listed ones (the shape is a Rust type: enumerated, not symbolic)"]
+
 META = {
     "C01": {
-        "bounds": {
-            "quick": "N=3 tokens (u8, all 256 values), all symbolic grammar parameters t_i in u8; core catalogue shapes",
-            "thorough": "core shapes at N=3 and N=4 plus a VERIF_SEED-selected subset of the 1600 generated depth-2 trees at N=3",
-        },
-        "not_covered": ["inputs longer than N", "grammar shapes outside the catalogue (the shape is not symbolic)",
-                        "token types other than u8 (and char in the &str harnesses)"],
+        "bounds": {"quick": "N=3 tokens (u8, all 256 values), all symbolic grammar tokens t_i in u8; 21 core shapes",
+                   "thorough": "core shapes at N=3 and N=4"},
+        "not_covered": COMMON_NOT + ["token types other than u8 (char on &str is exercised under C07/C10/C14/C20)"],
+    },
+    "C02": {
+        "bounds": {"quick": "N=3..4 tokens; at_least/at_most/exactly symbolic in 0..=4; allow_leading/allow_trailing symbolic; item and separator tokens symbolic",
+                   "thorough": "adds N=5 for repeated/separated_by, nested repetition, two-token items at N=4/5"},
+        "not_covered": COMMON_NOT + ["counts above 4", "items that can match the empty string", "String/() containers"],
+    },
+    "C03": {
+        "bounds": {"quick": "N=3; contract asserted on parse() and check() of every shape incl. lazy(), recovery and validation shapes",
+                   "thorough": "adds N=4 shapes and skip_until recovery"},
+        "not_covered": COMMON_NOT,
+    },
+    "C04": {
+        "bounds": {"quick": "N=3; one value-dependent ingredient per output-eliding combinator (11 paired formulations) + check() vs parse() on 3 shapes",
+                   "thorough": "all 66 (combinator x ingredient) pairs; 10 check-vs-parse shapes, N up to 4"},
+        "not_covered": COMMON_NOT + ["error CONTENTS are compared through the length of the error list (every emitter reports a distinct number of copies) — not field by field", "pratt / nested_in / context shapes in check mode beyond those under C15/C20"],
+    },
+    "C05": {
+        "bounds": {"quick": "N=3..4; one shape per backtracking site with an emitter inside the abandoned and inside the kept part",
+                   "thorough": "adds N=4/5, sites nested pairwise"},
+        "not_covered": COMMON_NOT + ["the ORDER of emissions from different sites (only the surviving SET is decided: emitter k reports 2^(k-1) copies and the list length is compared; order and spans only where a single site emits)", "emitters inside the lookahead part of and_is (unspecified)"],
+    },
+    "C06": {
+        "bounds": {"quick": "N=3..4; error type BitErr (expected set = bit mask, merge = set union)", "thorough": "adds N=4 depth shapes"},
+        "not_covered": COMMON_NOT + ["everything specific to Rich (its merge / merge_expected_found / replace_expected_found): CBMC runs out of memory on Rich even for one isolated merge", "grammars with `not` (excluded by the property)", "the position attributed to a rejecting filter (permissive corner)", "Simple"],
+    },
+    "C07": {
+        "bounds": {"quick": "&str: up to 3 characters from {a, e-acute, euro sign, emoji} (1..4 bytes); &[u8]: N=3; Input::map: 3 tokens with symbolic gaps 0..=3 and widths 1..=3",
+                   "thorough": "same (plus every C01/C02 digest, which embeds the span of every node)"},
+        "not_covered": COMMON_NOT + ["custom Span types", "pratt fold callbacks' spans", "Stream (spans are plain indices: C10)"],
+    },
+    "C08": {
+        "bounds": {"quick": "N=3..4; via_parser at top level / inside or (1st, 2nd alternative) / inside repeated / under or_not / nested; skip_until; skip_then_retry_until",
+                   "thorough": "adds N=4/5"},
+        "not_covered": COMMON_NOT + ["nested_delimiters (recursive + boxed: not within reach in this round)", "the recovered error's expected set (TagErr carries position only)"],
+    },
+    "C09": {
+        "bounds": {"quick": "whole parser: 3-operator table {prefix, infix, postfix} at N=3, {prefix(P), infix} P in {0,2} at N=4, arbitrary bytes; one operator step (infix / prefix / postfix) with SYMBOLIC power < 2^15, associativity and min_power, recursion stubbed",
+                   "thorough": "adds {infix left(1), infix left|right(2)} and {prefix, prefix, infix} at N=5"},
+        "not_covered": ["tables of 4..6 operators, strings of length 8", "symbolic powers in the whole-parser query (unrolling of the recursive closure calls explodes: measured timeouts)", "Vec / boxed tables (tuple tables only)"],
+    },
+    "C10": {
+        "bounds": {"quick": "N=3; &[u8] vs Stream (with a pull-counting iterator), IterInput, Input::map, map_span, &[u8; 3], BoxedStream, &str (ASCII)", "thorough": "same"},
+        "not_covered": ["IoInput (BufReader + io::Error: measured timeout)", "Graphemes (unicode-segmentation tables: measured timeout)", "bytes::Bytes", "Stream inputs longer than one 512-token batch (515-token harness: timeout)", "with_context (different span type)"],
+    },
+    "C11": {
+        "bounds": {"quick": "N=3; memoized parser shared by two alternatives (boxed clone), memoized at different positions, under map_err / recover_with, left-recursive grammar",
+                   "thorough": "same"},
+        "not_covered": COMMON_NOT + ["hashbrown is replaced by an association-list stand-in with map semantics (the real SwissTable/foldhash code is not encodable)"],
+    },
+    "C12": {
+        "bounds": {"quick": "N=3 (nesting depth <= 1 plus the failing deeper attempts), recursive() and declare/define, clone/box/drop", "thorough": "same"},
+        "not_covered": ["stacker / nesting 10^6 deep (FFI / inline assembly; far outside any bound)", "define() twice (covered by the pinned test recursive_define_twice)", "Location::caller is stubbed in the declare/define harness"],
+    },
+    "C13": {
+        "bounds": {"quick": "histories of 2 parses with independent symbolic inputs of length <= 2 on one parser value; wrappers clone, &, Box, Rc, Arc, boxed(), Either; recursive + memoized parser reused", "thorough": "same"},
+        "not_covered": ["threads / schedules (Kani does not model concurrency)", "Cache", "histories longer than 2"],
+    },
+    "C14": {
+        "bounds": {"quick": "arbitrary bytes N=3 (keyword: 4) for int(10), digits(16), ascii::ident, keyword, whitespace, inline_whitespace, padded; &str of <= 3 chars from the 7 terminator characters + 'a' for newline; &str vs &[u8] on 2 ASCII bytes",
+                   "thorough": "adds int(r) for r in {2, 8, 16, 36}"},
+        "not_covered": ["regex (regex-automata is not encodable)", "unicode::ident / unicode::keyword (XID tables)", "strings longer than the bound"],
+    },
+    "C15": {
+        "bounds": {"quick": "N=3..4; length-prefixed (collecting and unit paths), static cap under configure, delimiter echo by value and by reference in parse and check mode, nearest provider (nested / repeated / abandoned alternative), try_configure, map_ctx", "thorough": "same"},
+        "not_covered": COMMON_NOT + ["recursion under a context provider"],
+    },
+    "C16": {
+        "bounds": {"quick": "token trees: <= 2 outer tokens, each a leaf or a group of <= 2 leaves (depth 2)", "thorough": "same"},
+        "not_covered": ["depth 3..4", "gapped spans on nested inputs", "the inner failure's position in the outer error (TagErr count only)"],
+    },
+    "C17": {
+        "bounds": {"quick": "N=3; BitErr; labelled / as_context on a two-token parser in a choice and after an optional that left a pending error; map_err / map_err_with_state on failing and on succeeding parsers; nested labels (thorough)", "thorough": "adds nested labels"},
+        "not_covered": COMMON_NOT + ["Rich::label_with / in_context themselves (see C06)", "labels inserted at every subset of nodes"],
+    },
+    "C18": {
+        "bounds": {"quick": "N=3..4; snapshot Inspector observed in map_with / select / foldl_with closures after or, or_not, repeated, separated_by, rewind, not, and_is, recover_with (3 strategies), padded (skip_while), with_state", "thorough": "same"},
+        "not_covered": COMMON_NOT + ["&str and Stream inputs", "pratt"],
+    },
+    "C19": {
+        "bounds": {"quick": "N=3..4; drop-counting outputs through group array / tuple, collect_exactly [D;2] and Box<[D;2]> (running short and iterator error), Vec, foldl, abandoned alternative, recovery, lookahead; clone-counting tokens; parse and check", "thorough": "same"},
+        "not_covered": COMMON_NOT,
+    },
+    "C20": {
+        "bounds": {"quick": "N=3; wrapper x failing-inner matrix with EmptyErr (8 wrappers) and Cheap (4 wrappers), inner kind symbolic; &str from 2 arbitrary Unicode scalar values; every other harness of every other property also carries Kani's panic / overflow / bounds / pointer checks and unwinding assertions",
+                   "thorough": "adds the union of all other properties' harnesses and text parsers on arbitrary bytes"},
+        "not_covered": ["time polynomial in the input (not a safety property of a bounded run)", "stack exhaustion (no stack model; stacker not encodable)", "debug-only progress assertions (harnesses are built with debug-assertions off)"],
     },
 }
